@@ -406,21 +406,21 @@ _definitions = {
         "properties": {
             "positional_only": {
                 "type": "array",
-                "items": {"type": "string"},
+                "items": {"$ref": "#/definitions/ConstantString"},
                 "default": [],
             },
             "positional_or_keyword": {
                 "type": "array",
-                "items": {"type": "string"},
+                "items": {"$ref": "#/definitions/ConstantString"},
                 "default": [],
             },
-            "var_positional": {"type": "string"},
+            "var_positional": {"$ref": "#/definitions/ConstantString"},
             "keyword_only": {
                 "type": "array",
-                "items": {"type": "string"},
+                "items": {"$ref": "#/definitions/ConstantString"},
                 "default": [],
             },
-            "var_keyword": {"type": "string"},
+            "var_keyword": {"$ref": "#/definitions/ConstantString"},
         },
         "description": Args.__doc__,
     },
@@ -449,10 +449,14 @@ _definitions = {
             },
             "filename": {"$ref": "#/definitions/ConstantString"},
             "first_line_number": {"type": "integer"},
-            "name": {"type": "string"},
+            "name": {"$ref": "#/definitions/ConstantString"},
             "stacksize": {"type": "integer"},
             "type": {"$ref": "#/definitions/Function"},
-            "freevars": {"type": "array", "items": {"type": "string"}, "default": []},
+            "freevars": {
+                "type": "array",
+                "items": {"$ref": "#/definitions/ConstantString"},
+                "default": [],
+            },
             "_nested": {"type": "boolean", "default": False},
             "_additional_line": {"$ref": "#/definitions/AdditionalLine"},
             "_additional_args": {
@@ -491,7 +495,7 @@ _definitions = {
         "type": "object",
         "required": ["name"],
         "properties": {
-            "name": {"type": "string"},
+            "name": {"$ref": "#/definitions/ConstantString"},
             "_index_override": {"type": "integer"},
         },
         "description": Name.__doc__,
@@ -500,7 +504,7 @@ _definitions = {
         "type": "object",
         "required": ["varname"],
         "properties": {
-            "varname": {"type": "string"},
+            "varname": {"$ref": "#/definitions/ConstantString"},
             "_index_override": {"type": "integer"},
         },
         "description": Varname.__doc__,
@@ -605,14 +609,14 @@ _definitions = {
     "Freevar": {
         "type": "object",
         "required": ["freevar"],
-        "properties": {"freevar": {"type": "string"}},
+        "properties": {"freevar": {"$ref": "#/definitions/ConstantString"}},
         "description": Freevar.__doc__,
     },
     "Cellvar": {
         "type": "object",
         "required": ["cellvar"],
         "properties": {
-            "cellvar": {"type": "string"},
+            "cellvar": {"$ref": "#/definitions/ConstantString"},
             "_index_override": {"type": "integer"},
         },
         "description": Cellvar.__doc__,
